@@ -136,6 +136,8 @@ theorem C17_split_is_source (id : Nat) :
       ((split id).month, (split id).day, (split id).hour, (split id).minute, (split id).second,
        (split id).gate, (split id).seq) := by
   simp only [Gen.cmpp_SplitMsgID, split, Nat.shiftRight_eq_div_pow, and15, and31, and63, and22, and16]
+  -- a source that shifts step by step (`msgID >>= 16; … msgID & mask`) leaves nested divisions: linear arithmetic
+  <;> (simp only [Prod.mk.injEq]; repeat' apply And.intro) <;> (first | trivial | omega)
 
 /-- **split ∘ combine on the source functions**: in-range fields come back -/
 theorem C17_source_split_combine (p : Parts) (h : InRange p) :
